@@ -41,7 +41,12 @@ class Subject:
         self.ext = gen.mk_ext(self.ca)
         self.phys = export.export_ext(self.ext)
         a = ctx.driver.call("abs", col=self.phys)
+        was_hidden = bool(self.hyp.get("hidden"))
         self.hyp = a["model"]["hyp"] if "model" in a else a["hyp"]
+        if self.hyp.get("hidden") and not was_hidden:
+            # the LIBRARY left child lists under a row it made missing (the known findings K1 are about storage that
+            # arrives with such lists): what follows is judged against the specification, not set aside as K1
+            self.hyp = dict(self.hyp, hidden=False, hiddenMadeByLibrary=True)
         self.abs_rows = (a["model"] if "model" in a else a)["col"]["rows"]
         if weak_rows(self.abs_rows) == weak_rows(rows):
             # boxing a DataFrame turns NaN into null (`from_pandas=True`): continue with the exact cells stored
